@@ -18,6 +18,7 @@ Failed(r) ==
                                         /\ SubSeq(r.pab, 65, Len(r.pab)) = r.ref_ab /\ Len(r.pab) = 64 + Len(r.plain))
        \cup Clause("decrypts_back", r.decb = r.plain /\ r.deca = r.plain)
       [] r.op = "sig" -> Clause("verify_iff_genuine", r.verified = r.genuine) \cup Clause("signature_is_64_bytes", r.siglen = 64)
+      [] r.op = "mnemonic_rule" -> Clause("mnemonic_validity_follows_the_seed_rule", r.libvalid = r.rule)
       [] r.op = "mnemonic" -> Clause("mnemonic_24_words_from_list", r.n = 24 /\ r.inlist = 1)
                               \cup Clause("generated_mnemonic_valid", r.valid = 1)
                               \cup Clause("derivation_deterministic", r.det = 1)
